@@ -71,11 +71,16 @@ def obs_c03(case):
     P0 = bytes.fromhex(case["P0"])
     m, cls, mid, pbf = lay["m"], lay["cls"], lay["id"], 1 if lay["pbf"] else 0
     ev = {"prop": "C03", "m": m, "cls": cls, "id": mid, "pbf": pbf, "pre": "", "kw": [], "out": "", "P": [], "back": [], "backidx": []}
-    msg0, pre, _ = walk.parse_payload(m, cls, mid, pbf, P0)
-    ev["pre"] = pre
-    if msg0 is None:
-        return ev
-    kwargs = {k: v for k, v in vars(msg0).items() if not k.startswith("_")}
+    if case.get("synthkw"):
+        # keyword values decoded from P0 by the harness itself (independent of the library's parser)
+        kwargs = synth_kwargs(lay, P0)
+        ev["pre"] = "msg"
+    else:
+        msg0, pre, _ = walk.parse_payload(m, cls, mid, pbf, P0)
+        ev["pre"] = pre
+        if msg0 is None:
+            return ev
+        kwargs = {k: v for k, v in vars(msg0).items() if not k.startswith("_")}
     if case.get("only") is not None:
         kwargs = {k: v for k, v in kwargs.items() if k in case["only"]}
     for d in case.get("drop", ()):
@@ -253,6 +258,15 @@ def obs_c04(case):
             sers.append((msg, list(s) if isinstance(s, (bytes, bytearray)) else BAD))
         except Exception:  # noqa: BLE001
             sers.append((msg, BAD))
+    # mixed addressing (one part as bytes, the other as integer): refused, or the same frame - never a different one
+    ev["mixed"] = []
+    if case["route"] != "lenient":
+        for a, b in ((bytes([cls]), mid), (cls, bytes([mid]))):
+            try:
+                s = UBXMessage(a, b, m, **kw).serialize()
+                ev["mixed"].append(list(s) if isinstance(s, (bytes, bytearray)) else BAD)
+            except Exception:  # noqa: BLE001 - a refusal is fine
+                pass
     msg0, s0 = sers[0]
     if msg0 is None:
         ev["built"] = s0
@@ -276,7 +290,7 @@ def obs_c04_cfg(case):
     """config_set / config_del / config_poll helpers: case {fn, args: [a, b, items]} items with names or ints"""
     from pyubx2 import UBXMessage, UBXReader
 
-    ev = {"prop": "C04", "kind": "construct", "ser": BAD, "payload": BAD, "clsid": [], "forms": [], "reparse": "", "reser": BAD, "built": ""}
+    ev = {"prop": "C04", "kind": "construct", "ser": BAD, "payload": BAD, "clsid": [], "forms": [], "reparse": "", "reser": BAD, "built": "", "mixed": []}
     items = [tuple(x) if isinstance(x, list) else x for x in case["items"]]
     try:
         msg = getattr(UBXMessage, case["fn"])(case["a"], case["b"], items)
@@ -298,4 +312,37 @@ def obs_c04_cfg(case):
     return ev
 
 
-OBSERVERS = {"c03": obs_c03, "c15": obs_c15, "c04": obs_c04, "c04cfg": obs_c04_cfg}
+def obs_c03_mt(case):
+    """constructions raced by several threads as the first use of the library in a fresh interpreter (+ one made afterwards)"""
+    import json
+    import os
+    import subprocess
+    import sys
+    import tempfile
+
+    from ..common import VERIF, MachineryError
+
+    d = tempfile.mkdtemp(prefix="c03mt-", dir=os.path.join(VERIF, "build"))
+    cin, cout = os.path.join(d, "case.json"), os.path.join(d, "out.json")
+    try:
+        c = dict(case)
+        c["cfgtypes"] = walk.CFGTYPES
+        with open(cin, "w") as f:
+            json.dump(c, f)
+        env = dict(os.environ, PYTHONPATH=VERIF, PYTHONDONTWRITEBYTECODE="1")
+        p = subprocess.run([sys.executable, "-m", "harness.drivers.build_child", cin, cout], cwd=VERIF, env=env, capture_output=True, timeout=600)
+        if not os.path.exists(cout):
+            raise MachineryError("C03 child failed: rc=%s %s" % (p.returncode, p.stderr[-600:]))
+        with open(cout) as f:
+            ev = json.load(f)
+        if ev is None:
+            raise MachineryError("C03 child: no event")
+        return ev
+    finally:
+        for x in (cin, cout):
+            if os.path.exists(x):
+                os.remove(x)
+        os.rmdir(d)
+
+
+OBSERVERS = {"c03mt": obs_c03_mt, "c03": obs_c03, "c15": obs_c15, "c04": obs_c04, "c04cfg": obs_c04_cfg}
